@@ -13,6 +13,7 @@ import (
 	"regexp"
 	"runtime/debug"
 	"strings"
+	"sync"
 	"time"
 
 	badgerdb "github.com/dgraph-io/badger/v4"
@@ -38,7 +39,8 @@ type Backend struct {
 	in   *injector   // set when the handle runs over the fault-injecting wrapper
 	db   *clover.DB
 	open bool
-	dead bool // a call timed out: the handle may be wedged, stop using it
+	dead bool // a call timed out: the handle may be wedged, stop using it (only read after the calls are over)
+	dmu  sync.Mutex
 	wrap func(store.Store) store.Store
 }
 
@@ -169,6 +171,9 @@ func (b *Backend) guarded(fn func(res E) error) E {
 		if err != nil {
 			res["st"] = "err"
 			res["err"] = errClass(err)
+			if isConflict(err) {
+				res["conflict"] = 1
+			}
 			msg := err.Error()
 			if len(msg) > 200 {
 				msg = msg[:200]
@@ -184,7 +189,9 @@ func (b *Backend) guarded(fn func(res E) error) E {
 	case r := <-ch:
 		return r
 	case <-time.After(callDeadline):
+		b.dmu.Lock()
 		b.dead = true
+		b.dmu.Unlock()
 		return E{"st": "timeout", "err": "timeout"}
 	}
 }
